@@ -230,7 +230,13 @@ func runC17(c *kit.Ctx) {
 	// the connection-level-error cap of SendBatch looks at this round's retry list:
 	// nothing may empty or replace that list between the round's wait and the test
 	if sbFn := p.Func("", "client", "SendBatch"); sbFn != nil {
-		for _, h := range kit.Calls(sbFn, kit.M("", "", "hasServerError")) {
+		var probes []ssa.CallInstruction
+		kit.Instrs(sbFn, func(in ssa.Instruction) {
+			if call, ok := in.(*ssa.Call); ok && isServerErrorProbe(p, call) {
+				probes = append(probes, call)
+			}
+		})
+		for _, h := range probes {
 			l, ok := kit.Strip(h.Common().Args[0]).(*ssa.UnOp)
 			if !ok {
 				c.Unk(sbFn, "retry-list-fresh", h.Pos(), "hasServerError is not applied to the retry list variable")
@@ -634,7 +640,7 @@ func retryLoopsWait(c *kit.Ctx) {
 					}
 				}
 				if !f.Pol && preOK {
-					if call, ok := f.Cond.(*ssa.Call); ok && strings.HasSuffix(kit.CalleeName(call), ".hasServerError") && nsreOnlyRound(fn, facts) {
+					if call, ok := f.Cond.(*ssa.Call); ok && isServerErrorProbe(p, call) && nsreOnlyRound(fn, facts) {
 						tabledUsed++
 						return true
 					}
